@@ -424,6 +424,9 @@ func (key *PrivateKey) ECDSA() (*ecdsa.PrivateKey, error) {
 		if key.KeyBlock.KeyFormatType == KeyFormatTypeTransparentECPrivateKey {
 			tkey = mat.TransparentECPrivateKey
 		}
+		if tkey == nil {
+			return nil, errors.New("Empty key material")
+		}
 
 		var curve elliptic.Curve
 		switch tkey.RecommendedCurve {
